@@ -676,7 +676,11 @@ func (c *converter) convertObjectFromShape(schema core.ZodSchema, shape core.Obj
 	properties := make(map[string]*lib.Schema, len(shape))
 	required := make([]string, 0)
 
-	for key, propSchema := range shape {
+	// Visit the properties in key order: converting a property has effects on the converter
+	// ($defs names are numbered in visiting order, the first visit of a shared schema is the
+	// one rendered inline), so map iteration order would show in the document.
+	for _, key := range slices.Sorted(maps.Keys(shape)) {
+		propSchema := shape[key]
 		c.path = append(c.path, "properties", key)
 		propJSONSchema, err := c.convert(propSchema)
 		if err != nil {
@@ -1260,15 +1264,26 @@ func (c *converter) convertEnum(schema core.ZodSchema) (*lib.Schema, error) {
 		return nil, ErrEnumExtractValues
 	}
 
-	// Ensure deterministic order for enum values to avoid map iteration randomness
-	switch enumValues[0].(type) {
-	case string:
+	// Options() walks a map: give the members a total order, whatever their type, so that the
+	// document is a function of the schema. Strings sort as strings; everything else (and any
+	// mix of types, possible with T = any) by its printed value, then by its type name.
+	allStrings := true
+	for _, v := range enumValues {
+		if _, ok := v.(string); !ok {
+			allStrings = false
+			break
+		}
+	}
+	if allStrings {
 		slices.SortStableFunc(enumValues, func(a, b any) int {
 			return cmp.Compare(a.(string), b.(string))
 		})
-	case int, int32, int64, uint, uint32, uint64, float64, float32:
+	} else {
 		slices.SortStableFunc(enumValues, func(a, b any) int {
-			return cmp.Compare(fmt.Sprintf("%v", a), fmt.Sprintf("%v", b))
+			if c := cmp.Compare(fmt.Sprintf("%v", a), fmt.Sprintf("%v", b)); c != 0 {
+				return c
+			}
+			return cmp.Compare(fmt.Sprintf("%T", a), fmt.Sprintf("%T", b))
 		})
 	}
 
